@@ -1,6 +1,7 @@
 """C19 - -cdf passes non-bzip2 data through unchanged."""
 import json
 import os
+import time
 
 import vlib
 import schedc_lib as L
@@ -157,9 +158,62 @@ class Check(PropertyCheck):
                 "samples": [{"kind": j[1], "size": len(j[2]), "input": j[3], "frag": (j[4] or [])[:5]} for j in jobs[:4]],
                 "histogram": hist, "disagreements": ndis}
 
+    def slow_sink_runs(self):
+        """-cdf copy with a consumer of standard output that starts reading late and slowly: more than two 64 KiB buffers are
+        under way between reader and writer if anything but in_slots bounds them (output_q is a 2-element ring in copy mode)."""
+        import subprocess
+        exe = vlib.build_lbzip2("rel")
+        r = self.rng
+        out = []
+        sizes = [131077, 200000, 1 << 20] if self.tier == "quick" else [131077, 200000, 400000, 1 << 20, 3 << 20]
+        for size in sizes:
+            data = b"BZh:" + L.noise(r, size - 4)
+            path = os.path.join(self.work, "slow_%d.bin" % size)
+            with open(path, "wb") as f:
+                f.write(data)
+            try:
+                for inmode in ("file", "pipe"):
+                    fin = open(path, "rb") if inmode == "file" else subprocess.PIPE
+                    p = subprocess.Popen([exe, "-cdf", "-n2"], stdin=fin, stdout=subprocess.PIPE, stderr=subprocess.PIPE)
+                    if inmode == "pipe":
+                        import threading
+                        def feed(pp=p, d=data):
+                            try:
+                                pp.stdin.write(d)
+                                pp.stdin.close()
+                            except OSError:
+                                pass
+                        threading.Thread(target=feed, daemon=True).start()
+                    else:
+                        fin.close()
+                    time.sleep(0.6)
+                    got = bytearray()
+                    try:
+                        while True:
+                            b = os.read(p.stdout.fileno(), 4096)
+                            if not b:
+                                break
+                            got += b
+                            if len(got) < 65536:
+                                time.sleep(0.002)
+                        rc = p.wait(timeout=30)
+                    except subprocess.TimeoutExpired:
+                        p.kill()
+                        rc = 124
+                    err = p.stderr.read().decode("latin-1")[-200:]
+                    if rc != 0 or bytes(got) != data:
+                        out.append(Violation("cdf-copy-mismatch", "lbzip2 -cdf -n2 with a slow consumer of standard output (%s input, %d bytes): exit %s, "
+                                             "%d bytes copied, equal=%s %s" % (inmode, size, rc, len(got), bytes(got) == data, err.replace("\n", " | ")),
+                                             {"size": size, "mode": "slowsink-" + inmode, "rc": rc, "stderr": err, "input_hex": data[:2000].hex()}))
+                        return out
+            finally:
+                os.unlink(path)
+        self.notes.append("slow-consumer copy runs: %d sizes x {file, pipe}: all exact" % len(sizes))
+        return out
+
     def direct(self):
         """The property itself: stdout == stdin, exit 0, for non-magic inputs."""
-        v = []
+        v = self.slow_sink_runs()
         for (ix, kind, data, mode, plan), (rc, out, err, to, ref) in zip(getattr(self, "jobs_", []), getattr(self, "results_", [])):
             magic = len(data) >= 4 and data[:3] == b"BZh" and 0x31 <= data[3] <= 0x39
             desc = "size=%d first=%s input=%s frag=%s" % (len(data), data[:6].hex(), mode, (plan or [])[:6])
